@@ -64,6 +64,40 @@ def _match_unpack(target, value, name):
     return None
 
 
+def nnf(e: ast.AST, negate: bool = False) -> ast.AST:
+    """Negation normal form of a boolean test: `not` only directly in front of non-boolean operands.  Returns the
+    very same node when nothing had to be rewritten."""
+    if isinstance(e, ast.UnaryOp) and isinstance(e.op, ast.Not):
+        return nnf(e.operand, not negate)
+    if isinstance(e, ast.BoolOp):
+        vals = [nnf(v, negate) for v in e.values]
+        if not negate and all(a is b for a, b in zip(vals, e.values)):
+            return e
+        op = e.op if not negate else (ast.Or() if isinstance(e.op, ast.And) else ast.And())
+        new = ast.BoolOp(op=op, values=vals)
+        return ast.copy_location(new, e)
+    if not negate:
+        return e
+    if isinstance(e, ast.Compare) and len(e.ops) == 1:
+        flip = {ast.Eq: ast.NotEq, ast.NotEq: ast.Eq, ast.Is: ast.IsNot, ast.IsNot: ast.Is, ast.In: ast.NotIn, ast.NotIn: ast.In}
+        if type(e.ops[0]) in flip:
+            new = ast.Compare(left=e.left, ops=[flip[type(e.ops[0])]()], comparators=e.comparators)
+            return ast.copy_location(new, e)
+    return ast.copy_location(ast.UnaryOp(op=ast.Not(), operand=e), e)
+
+
+def _neg_cost(e: ast.AST) -> int:
+    n = 0
+    for x in ast.walk(e):
+        if isinstance(x, ast.UnaryOp) and isinstance(x.op, ast.Not):
+            n += 1
+        elif isinstance(x, ast.Compare) and len(x.ops) == 1 and isinstance(x.ops[0], (ast.NotEq, ast.IsNot, ast.NotIn)):
+            n += 1
+        if not isinstance(x, (ast.BoolOp, ast.UnaryOp, ast.And, ast.Or, ast.Not)) and x is not e:
+            pass
+    return n
+
+
 @dataclass
 class Cond:
     test: ast.AST  # the controlling expression (or For/Try stmt for loop/exc kinds)
@@ -73,16 +107,31 @@ class Cond:
     raw_polarity: object = None
 
     def normalised(self) -> "Cond":
-        """`not X` taken with polarity P is X taken with polarity not P."""
+        """`not X` taken with polarity P is X taken with polarity not P; negations are pushed inside and / or
+        (`not (not a and not b)` is `a or b`), so that De Morgan variants of one test look the same to every rule."""
         t, p = self.test, self.polarity
         if p not in (True, False):
             return self
         changed = False
         while isinstance(t, ast.UnaryOp) and isinstance(t.op, ast.Not):
             t, p, changed = t.operand, (not p), True
+        if isinstance(t, ast.BoolOp):
+            # two equivalent readings: (t, p) and (nnf(not t), not p); the one with fewer negations is canonical
+            alt = nnf(t, negate=True)
+            a1, a2 = nnf(t), alt
+            if _neg_cost(a2) < _neg_cost(a1):
+                t, p, changed = a2, (not p), True
+            elif a1 is not t:
+                t, changed = a1, True
         if not changed:
             return self
         return Cond(t, p, self.kind, raw=self.test, raw_polarity=self.polarity)
+
+    @property
+    def loc(self) -> ast.AST:
+        """the node of the source tree this condition sits at (a normalised `test` can be a rebuilt expression that has
+        no parent / CFG owner): use it for every positional query (ancestors, node_of, reaching, where)"""
+        return self.raw if self.raw is not None else self.test
 
     def key(self):
         return (ast.dump(self.test), self.polarity)
